@@ -58,6 +58,14 @@ func genFunc(w *World, fs *FuncSpec) (*Gen, error) {
 	}
 	// unmatched call rules are vacuous
 	for _, r := range fs.Calls {
+		if r.Matched == 0 && r.Never {
+			// the passing state of a prohibition: keep its clause present (and trivially true) so that a claim on it has
+			// an instance whether or not the forbidden call exists
+			for _, cl := range r.Requires {
+				g.oblige(cl.Label, "B", fmt.Sprintf("no call/store matching %q in the function: %s", r.Pattern, cl.Src), "true", "true", false)
+			}
+			continue
+		}
 		if r.Matched == 0 {
 			g.errs = append(g.errs, fmt.Sprintf("contract drift: call rule %q of %s matches no call/store in the function", r.Pattern, fs.Name))
 		}
